@@ -74,6 +74,19 @@ func propC08() *PropSpec {
 				return b
 			}
 			js = append(js, jobsN(".", "VerifNumberExact", pick(rng(1, 6), rng(1, 8)), "Number(in,prec<=0), all lexemes incl. exponent: grammar, exact value, length, guard bytes")...)
+			{
+				var shapes []int
+				mi, mf := 3, 5
+				if !q {
+					mi, mf = 4, 6
+				}
+				for i := 1; i <= mi; i++ {
+					for f := 1; f <= mf; f++ {
+						shapes = append(shapes, 10*i+f)
+					}
+				}
+				js = append(js, jobsN(".", "VerifNumberShape", shapes, "Number(I.F<suffix>,prec<=0): I of n/10 and F of n%10 symbolic digits x 10 exponent suffixes")...)
+			}
 			js = append(js, jobsN(".", "VerifNumberNoExp", pick(rng(7, 9), rng(9, 13)), "Number(in,prec<=0), exponent-free lexemes")...)
 			js = append(js, jobsN(".", "VerifDecimalExact", pick(rng(1, 8), rng(1, 12)), "Decimal(in,prec<=0)")...)
 			js = append(js, jobsN(".", "VerifDecimalRound", pick(rng(2, 6), rng(2, 8)), "Decimal(in,prec 1..20): half-ulp bound")...)
@@ -349,6 +362,7 @@ func propC04() *PropSpec {
 			js = append(js, jobsN("css", "VerifCSSNotAColor", pick(rng(3, 3), rng(3, 4)), "identifiers of n symbolic letters that are not colour keywords pass through")...)
 			js = append(js, jobsN("css", "VerifCSSColorFunc", []int{0}, "hsl()/hsla()/rgb()/rgba() on argument grids")...)
 			js = append(js, jobsN("css", "VerifCSSNumber", pick(rng(1, 4), rng(1, 5)), "number lexeme of n symbolic bytes x 9 units x 4 properties x KeepCSS2")...)
+			js = append(js, jobsN("css", "VerifCSSLongNumber", []int{0}, "7 numbers of 17-24 significant digits x 4 units x 9 Precision values x KeepCSS2")...)
 			js = append(js, jobsN("css", "VerifCSSBox", rng(1, 4), "margin/padding/border-width/inset with n values")...)
 			js = append(js, jobsN("css", "VerifCSSBgPos", rng(1, 4), "background-position with n tokens")...)
 			js = append(js, jobsN("css", "VerifCSSFlex", rng(1, 3), "flex with n tokens")...)
@@ -412,11 +426,13 @@ func propC16() *PropSpec {
 			js = append(js, jobsN("js", "VerifJSVersion", pick([]int{1}, []int{1}), "x=E (depth 1) for targets ES5/2019/2020")...)
 			js = append(js, jobsN("html", "VerifHTMLKeepDefaults", []int{0}, "14 default-valued attributes x quoting x case x KeepDefaultAttrVals/KeepQuotes/KeepEndTags/KeepWhitespace/KeepDocumentTags")...)
 			js = append(js, jobsN("html", "VerifHTMLKeepTags", []int{0}, "KeepDocumentTags / KeepEndTags / KeepComments on document templates")...)
+			js = append(js, jobsN("html", "VerifHTMLKeepInConditional", []int{0}, "Keep* options inside a conditional comment kept by KeepSpecialComments: 4 contents x 4 options")...)
 			js = append(js, jobsN("html", "VerifHTMLAttrRaw", pick(rng(1, 2), rng(1, 3)), "KeepQuotes / KeepDefaultAttrVals symbolic in the attribute oracle of C03")...)
 			js = append(js, jobsN("html", "VerifHTMLTree", pick(rng(2, 3), rng(2, 4)), "KeepEndTags / KeepComments / KeepWhitespace symbolic in the tree oracle of C03")...)
 			js = append(js, jobsN("json", "VerifJSONValue", pick(rng(1, 4), rng(1, 5)), "KeepNumbers symbolic: lexemes byte-identical when set (oracle of C07)")...)
 			js = append(js, jobsN("xml", "VerifXMLMixed", pick(rng(1, 1), rng(1, 2)), "KeepWhitespace symbolic (oracle of C06)")...)
 			js = append(js, jobsN("css", "VerifCSSNumber", pick(rng(1, 3), rng(1, 4)), "KeepCSS2 symbolic: no exponent notation when set (oracle of C04)")...)
+			js = append(js, jobsN("css", "VerifCSSLongNumber", []int{0}, "css Precision honoured for numbers, percentages and dimensions alike (0 = every digit kept)")...)
 			js = append(js, Job{Pkg: "html", Fn: "VerifHTMLTwin", N: 0, ExpectFail: true, Desc: "vacuity twin"})
 			return js
 		},
@@ -441,8 +457,9 @@ func propC11() *PropSpec {
 			}
 			js = append(js, jobsN("html", "VerifHTMLEmbedRaw", pick(rng(1, 3), rng(1, 4)), "script/style elements x type attributes x preceding raw element x registry modes, payload n bytes")...)
 			js = append(js, jobsN("html", "VerifHTMLEmbedAttr", pick(rng(1, 3), rng(1, 4)), "style / onclick attributes, payload n bytes")...)
+			js = append(js, jobsN("html", "VerifHTMLEventScheme", pick(rng(0, 3), rng(0, 4)), "onclick=\"javascript:<n bytes>\": scheme stripped, payload (possibly empty) dispatched")...)
 			js = append(js, jobsN("html", "VerifHTMLEmbedDataURI", pick(rng(1, 3), rng(1, 4)), "data: URIs in img src / link href with and without parameters")...)
-			js = append(js, jobsN("svg", "VerifSVGEmbed", pick(rng(1, 3), rng(1, 4)), "svg style element and style attribute")...)
+			js = append(js, jobsN("svg", "VerifSVGEmbed", pick(rng(1, 3), rng(1, 4)), "svg style element (plain / CDATA) and style attribute, svg called with and without the inline parameter")...)
 			js = append(js, Job{Pkg: "html", Fn: "VerifHTMLTwin", N: 0, ExpectFail: true, Desc: "vacuity twin"})
 			return js
 		},
@@ -486,7 +503,8 @@ func propC17() *PropSpec {
 		Jobs: func(tier string) []Job {
 			var js []Job
 			js = append(js, jobsN("html", "VerifHTMLEntities", rng(0, 4), "256 entities per block x 6 following contexts, text and attribute")...)
-			js = append(js, jobsN("html", "VerifHTMLTraits", []int{0}, "every attrMap / tagMap entry: boolean, URL, raw text traits")...)
+			js = append(js, jobsN("html", "VerifHTMLTraits", []int{0}, "every attrMap / tagMap entry: boolean, URL, raw text and white-space-insignificant traits vs lists from the HTML standard")...)
+			js = append(js, jobsN("html", "VerifHTMLInlineSpaces", []int{0}, "every tagMap element outside the white-space-insignificant list through the minifier: a <X>b</X> c and a <X></X> c keep their spaces")...)
 			if tier == "quick" {
 				js = append(js, jobsN("html", "VerifHTMLHash", rng(1, 3), "ToHash on every identifier of n symbolic bytes")...)
 			} else {
